@@ -20,6 +20,12 @@ def gen_case(r, k):
     thr = r.choice([gens.dy(r, 2, 4), -100.0, float(np.nanmedian(data[np.isfinite(data)])) if np.isfinite(data).any() else 0.0])
     if r.random() < 0.25:
         thr = np.full((ny, nx), float(thr)) + np.array([[r.choice([0, 0.5, -0.5]) for _ in range(nx)] for _ in range(ny)])
+    elif r.random() < 0.2:
+        # strongly varying pixel-wise threshold: a neighbourhood's brightest pixel may fail its own threshold while a fainter
+        # neighbour passes a lower one (the fainter pixel is still not a local maximum)
+        fin = data[np.isfinite(data)]
+        lo, hi = (float(fin.min()), float(fin.max())) if fin.size else (0.0, 1.0)
+        thr = np.array([[r.choice([lo - 1.0, hi + 1.0, (lo + hi) / 2, gens.dy(r, 2, 4)]) for _ in range(nx)] for _ in range(ny)])
     mask = gens.mask(r, ny, nx)
     fp = None
     box = r.choice([3, 3, 2, 5, (3, 1), (1, 3), 1, 4])
